@@ -233,6 +233,7 @@ def typing_task(task):
     findings = []
     counts = [0, 0]  # inspected values, distinct python types
     types = set()
+    mon = _monitor()
 
     def make_ctx():
         ctx = m.Context(time_limit=10, memory_limit=50000000)
@@ -254,27 +255,35 @@ def typing_task(task):
 
         ctx.set("inspect", inspect)
         ctx.set("hostfn", hostfn)
+        ctx.set("log", inspect)  # generated programs (gens/) report through log(tag, value)
         ctx.set("console", {"log": clog, "error": clog})
+        mon.exposed = [inspect, hostfn, clog]
         return ctx, seen
 
-    def run(ctx, src):
+    def run(ctx, src, seen=None):
         try:
-            with pool.cpu_alarm(40):
-                try:
-                    return ("ok", ctx.eval(src))
-                except pool.HarnessTimeout:
-                    return ("hang", None)
-                except Exception as e:
-                    return ("exc", engine.exc_info(e))
-        except pool.HarnessTimeout:
-            return ("hang", None)
+            try:
+                with pool.cpu_alarm(40):
+                    try:
+                        return ("ok", ctx.eval(src))
+                    except pool.HarnessTimeout:
+                        return ("hang", None)
+                    except Exception as e:
+                        return ("exc", engine.exc_info(e))
+            except pool.HarnessTimeout:
+                return ("hang", None)
+        finally:
+            # values that were on the VM's operand stack during this evaluation
+            for t, op in mon.take():
+                if seen is not None:
+                    seen.append("stack:%s" % t)
 
     if kind == "exprs":
         # many expressions per script; bisect when something non-JS is seen
         def rec(es):
             ctx, seen = make_ctx()
             body = SCAN_JS + "".join("(function(){ try { scan(%s, 2); } catch (e) { inspect(e); } })();\n" % e for e in es)
-            st, r = run(ctx, body + "0")
+            st, r = run(ctx, body + "0", seen)
             if not seen and st != "exc":
                 return
             if st == "exc" and not seen and len(es) == 1:
@@ -290,13 +299,13 @@ def typing_task(task):
     else:
         for src, names in items:
             ctx, seen = make_ctx()
-            st, r = run(ctx, src)
+            st, r = run(ctx, src, seen)
             if st == "ok":
                 bad = allowed_result(r)
                 if bad:
                     findings.append({"program": src[:600], "eval_result_contains": bad})
             tail = SCAN_JS + "".join("try { if (typeof %s !== 'undefined') scan(%s, 3); } catch (e%d) { inspect(e%d); }\n" % (n, n, i, i) for i, n in enumerate(names))
-            st2, r2 = run(ctx, tail + "0")
+            st2, r2 = run(ctx, tail + "0", seen)
             for n in names[:20]:
                 try:
                     with pool.cpu_alarm(10):
@@ -309,7 +318,128 @@ def typing_task(task):
                     pass
             if seen:
                 findings.append({"program": src[:600], "python_types": sorted(set(seen))})
-    return (findings, counts[0], sorted(types))
+    return (findings, counts[0], sorted(types), mon.checked if mon.available else -1)
+
+
+_MON = []
+
+
+def _monitor():
+    """One operand-stack monitor per worker process (vf/typemon.py)."""
+    if not _MON:
+        from vf import typemon
+
+        mon = typemon.Monitor()
+        mon.install()
+        _MON.append(mon)
+    return _MON[0]
+
+
+def operator_exprs():
+    """Every operator over the whole primitive grid of C06 (results go through inspect())."""
+    from gens import values as V
+    from oracles import prims as P
+
+    srcs = [s for _, s, _ in V.grid()]
+    G = "[%s]" % ", ".join(srcs)
+    out = []
+    for op in P.BINOPS:
+        for a in srcs:
+            out.append("(function(){ var G = %s; var a = %s; for (var i = 0; i < G.length; i++) { inspect(a %s G[i]); } })()" % (G, a, op))
+    for op in P.UNOPS:
+        sp = " " if op.isalpha() else ""
+        out.append("(function(){ var G = %s; for (var i = 0; i < G.length; i++) { inspect(%s%s G[i]); } })()" % (G, op, sp))
+    for op in P.COMPOUND:
+        out.append("(function(){ var G = %s; for (var i = 0; i < G.length; i++) for (var j = 0; j < G.length; j += 3) { var x = G[i]; x %s G[j]; inspect(x); } })()" % (G, op))
+    out.append("(function(){ var G = %s; for (var i = 0; i < G.length; i++) { var x = G[i]; inspect(x++); inspect(x); x = G[i]; inspect(--x); } })()" % G)
+    for fn in ("Math.pow", "Math.atan2", "Math.max", "Math.min", "Math.hypot", "Math.imul"):
+        out.append("(function(){ var G = %s; for (var i = 0; i < G.length; i++) for (var j = 0; j < G.length; j++) { try { inspect(%s(G[i], G[j])); } catch (e) { inspect(e); } } })()" % (G, fn))
+    return out
+
+
+ARRAY_LIKES = ["({length: 3, 0: 'a'})", "({length: 1})", "({length: 2, 1: 'b'})", "[1,,3]", "new Array(3)", "[,]", "new Uint8Array(2)", "'ab'",
+               "(function(){ return arguments; })(1, 2)", "({length: '2'})", "({length: 2.5, 0: 1})", "({length: -1})", "({})", "null", "undefined", "5", "[]",
+               "[undefined, null]", "({length: 2, 0: undefined})"]
+CALLEES = [
+    "inspect",
+    "(function(a, b, c){ inspect(a); inspect(b); inspect(c); for (var i = 0; i < arguments.length; i++) inspect(arguments[i]); return [a, b, c, arguments.length]; })",
+    "((a, b, c) => [a, b, c])",
+    "(function(a, b, c){ return [a, b, c]; }).bind(null)",
+    "(function(a, b, c){ return [a, b, c]; }).bind(null, 1)",
+    "inspect.bind(null)",
+    "Math.max", "String.fromCharCode", "[].concat", "Array", "Object", "Array.of",
+]
+
+
+def argflow_exprs():
+    """How argument lists reach a callee: apply / call / bind / spread / new with array-likes that have
+    holes, and calls with fewer arguments than parameters."""
+    out = []
+    for f in CALLEES:
+        for x in ARRAY_LIKES:
+            out.append("%s.apply(null, %s)" % (f, x))
+            out.append("Function.prototype.apply.call(%s, null, %s)" % (f, x))
+            out.append("%s.bind.apply(%s, %s)" % (f, f, x))
+        out.append("%s()" % f)
+        out.append("%s.call()" % f)
+        out.append("%s.call(null, 1)" % f)
+        out.append("%s(...[1,,3])" % f)
+        out.append("new %s(...[,1])" % f)
+    for x in ARRAY_LIKES:
+        out.append("(function(){ var t = []; [].push.apply(t, %s); return t; })()" % x)
+        out.append("(function(){ var t = [0]; [].splice.apply(t, %s); return t; })()" % x)
+        out.append("Array.from(%s)" % x)
+        out.append("Array.prototype.slice.call(%s)" % x)
+        out.append("Array.prototype.map.call(%s, function(v){ inspect(v); return v; })" % x)
+        out.append("Array.prototype.concat.call([], %s)" % x)
+        out.append("[].concat(%s)" % x)
+        out.append("(function(){ var r = []; for (var v of %s) { r.push(v); } return r; })()" % x)
+        out.append("(function(){ var [p, q, r] = %s; return [p, q, r]; })()" % x)
+        out.append("JSON.stringify(%s)" % x)
+        out.append("Object.values(%s)" % x)
+        out.append("Object.entries(%s)" % x)
+    out += ["[1,,3][1]", "new Array(3)[0]", "[,].pop()", "[].pop()", "[].shift()", "({}).x", "(function(a){ return a; })()", "(function(){ return arguments[5]; })(1)",
+            "'a'.match(/(b)?a/)", "/(b)?a/.exec('a')", "'xay'.split(/(b)?a/)", "'a'.replace(/(b)?a/, function(m, g){ inspect(g); return g; })",
+            "JSON.parse('[null, {\"a\": null}]')", "(function(){ try { null.x; } catch (e) { return e; } })()",
+            "(function(){ try { undefinedName; } catch (e) { return e; } })()", "(function(){ try { new Array(-1); } catch (e) { return e; } })()",
+            "(function(){ try { JSON.parse('{'); } catch (e) { return e; } })()", "(function(){ try { (1).toFixed(1000); } catch (e) { return e; } })()",
+            "(function(){ try { new RegExp('('); } catch (e) { return e; } })()", "(function(){ var o = {get g(){ }}; return o.g; })()",
+            "(function(){ var o = {}; Object.defineProperty(o, 'g', {get: console.log}); return o.g; })()",
+            "(function(){ var o = {}; Object.defineProperty(o, 'g', {get: inspect, set: inspect}); o.g = 1; return o.g; })()",
+            "(function(){ var o = {valueOf: console.log}; try { return o + 1; } catch (e) { return e; } })()",
+            "(function(){ var o = {toString: console.log}; try { return '' + o; } catch (e) { return e; } })()",
+            "[3, 1, 2].sort(console.log)", "[1, 2].map(console.log)", "[1, 2].reduce(console.log)", "[1, 2].find(console.log)", "[1, 2].filter(console.log)",
+            "'abc'.replace(/b/, console.log)", "JSON.stringify({a: 1}, console.log)", "JSON.parse('{\"a\": 1}', console.log)",
+            "new console.log()", "console.log.call(null)", "console.log.apply(null, [])", "console.log.bind(null)()", "void console.log()"]
+    return out
+
+
+def generated_programs(chk):
+    """Sources of the other checks' program generators (control flow, exceptions): every value they
+    hold passes the operand stack under the monitor and every logged value goes through inspect()."""
+    out = []
+    quick = chk.tier == "quick"
+    try:
+        from gens import c05gen, progs
+
+        for k in range(250 if quick else 6000):
+            p = c05gen.random_program(core.shard_seed(chk.seed, "C03", "c05", k) & 0xFFFFFFFFFFFF)
+            out.append((progs.to_js(p, progs.Layout()), []))
+    except Exception as e:  # a generator of another check changed shape: say so, do not fail C03
+        chk.extra["c05gen_unavailable"] = repr(e)[:200]
+    try:
+        from gens import c07gen
+
+        descs = list(c07gen.sites_product())
+        step = 4 if quick else 1
+        for d in descs[chk.seed % step :: step]:
+            try:
+                out.append((c07gen.to_source(c07gen.from_desc(d)), []))
+            except Exception:
+                continue
+    except Exception as e:
+        chk.extra["c07gen_unavailable"] = repr(e)[:200]
+    return out
 
 
 # ---------------------------------------------------------------- (c) host calls
@@ -353,6 +483,46 @@ CALLING = [
 ]
 
 
+REBIND_NAMES = ["Object", "Array", "String", "Number", "Boolean", "Function", "RegExp", "Error", "TypeError", "ReferenceError", "RangeError", "SyntaxError",
+                "EvalError", "URIError", "Symbol", "Date", "Math", "JSON", "console", "parseInt", "parseFloat", "isNaN", "isFinite", "eval", "Uint8Array",
+                "ArrayBuffer", "Float64Array", "Map", "Set", "Promise", "globalThis", "undefined", "NaN", "Infinity", "arguments", "toString", "valueOf",
+                "hasOwnProperty", "constructor", "prototype", "length"]
+# what the engine does on its own account (errors it raises, conversions, literals, built-ins): none of it names a global
+TRIGGERS = [
+    "null.x", "undefinedName", "(void 0)()", "new (function(){ return [].constructor; }())(-1)", "[].constructor(-1)", "(1).toFixed(1000)", "'a'.repeat(-1)",
+    "[].reduce(function(){})", "({}) instanceof 5", "'x' in 5", "[1, 2, 3].map(function(x){ return x; })", "'abc'.split('')",
+    "[1, 2].concat([3])", "({a: 1}).toString()", "'' + {}", "[] + 1", "/a(b)?/.exec('a')", "'a'.match(/a/g)", "'a'.replace(/a/, 'b')", "[3, 1].sort()",
+    "`t${1}`", "for (var k in {a: 1}) {}", "for (var v of [1]) {}", "(function(){ return arguments.length; })(1)", "(255).toString(16)", "1 / 0", "typeof zz",
+    "({}).hasOwnProperty('a')", "[1, [2]].toString()", "var o = {get g(){ return 1; }}; o.g", "'abc'.length", "[1, 2].length", "(function(a, b){}).length",
+    "+'12'", "'5' * '2'", "[1, 2].indexOf(2)", "[1, 2, 3].slice(1)", "'x'.charCodeAt(0)", "(12.5).toFixed(1)", "1 < 'a'", "null == undefined", "-{}",
+    "throw 1", "throw {a: 1}", "(function(){ 'use strict'; return this; })()", "new (function C(){ this.a = 1; })()", "[...[1, 2]]", "var {a} = {a: 1}; a",
+    "/(/", "'a'.match('(')", "'a'.search('[')", "(function(){ try { null.x; } finally { } })()",
+]
+# the same with the helpers that do name a global (skipped for that global)
+NAMED_TRIGGERS = [
+    ("JSON", "JSON.parse('{')"), ("JSON", "JSON.stringify({a: [1]})"), ("JSON", "JSON.parse('[1]')"), ("RegExp", "new RegExp('(')"), ("Array", "new Array(-1)"),
+    ("Object", "Object.keys({a: 1})"), ("Object", "Object.create(null)"), ("Error", "new Error('x').message"), ("eval", "eval('1 +')"), ("eval", "eval('1 + 1')"),
+    ("Function", "new Function('return 1')()"), ("Function", "new Function('(')"), ("Uint8Array", "new Uint8Array(2)"), ("Number", "Number('x')"),
+    ("String", "String(5)"), ("Math", "Math.max(1, 2)"), ("parseInt", "parseInt('12')"),
+]
+
+
+def rebind_cases():
+    """A global name bound to an exposed function (by the script or by the embedder) is a value like any
+    other: whatever the engine then does on its own account must not call it.  A case is a list of
+    sources evaluated one after the other in one context (a trigger that does not parse costs only itself)."""
+    out = []
+    for n in REBIND_NAMES:
+        trig = [t for t in TRIGGERS] + [t for g, t in NAMED_TRIGGERS if g != n]
+        trig = [t for t in trig if not re.search(r"\b%s\b" % re.escape(n), t)]
+        out.append((["try { %s = h1; } catch (e) { }" % n] + trig, []))
+        out.append((["var %s = h1;" % n] + trig, []))
+        out.append((["//set:%s" % n] + trig, []))
+        # the error / value the engine produces must still be a JavaScript value for the script
+        out.append((["try { %s = h1; } catch (e) { }" % n] + ["try { %s; } catch (e) { inspect(e); }" % t for t in trig if not t.startswith("throw")], []))
+    return out
+
+
 def hostcall_task(task):
     m = engine.load()
     out = []
@@ -365,18 +535,40 @@ def hostcall_task(task):
                 return 1
             return fn
 
-        ctx = m.Context(time_limit=10)
+        bad = []
+
+        def inspect(*a):
+            for v in a:
+                if not allowed_value(v, ()):
+                    bad.append("%s.%s" % (type(v).__module__, type(v).__name__))
+
+        ctx = m.Context(time_limit=2)
         ctx.set("h1", mk("h1"))
         ctx.set("h2", mk("h2"))
-        try:
-            with pool.cpu_alarm(20):
-                ctx.eval(src)
-            st = "ok"
-        except pool.HarnessTimeout:
-            st = "hang"
-        except Exception as e:
-            st = "exc:" + type(e).__name__
-        out.append((src, expect, log, st))
+        ctx.set("inspect", inspect)
+        srcs = [src] if isinstance(src, str) else list(src)
+        if srcs[0].startswith("//set:"):  # the embedder binds the global name
+            ctx.set(srcs[0][6:], mk("h1"))
+        st = "ok"
+        ran = 0
+        for one in srcs:
+            try:
+                with pool.cpu_alarm(20):
+                    ctx.eval(one)
+                ran += 1
+            except pool.HarnessTimeout:
+                st = "hang"
+                break
+            except Exception as e:
+                if len(srcs) == 1:
+                    st = "exc:" + type(e).__name__
+                elif not isinstance(e, m.JSError):
+                    st = "host-exc:" + type(e).__name__
+                elif "SyntaxError" not in str(e)[:40]:
+                    ran += 1
+        if bad:
+            log.append(["non-JS value reached the script", sorted(set(bad))])
+        out.append((src if isinstance(src, str) else list(srcs), expect, log, st if len(srcs) == 1 else "%s no-syntax-error=%d/%d" % (st, ran, len(srcs))))
     return out
 
 
@@ -446,20 +638,31 @@ def main(chk):
     if quick:
         exprs = exprs[:: 3]
     tasks = [("exprs", b) for b in pool.chunks(exprs, 80)]
+    ops = operator_exprs()
+    tasks += [("exprs", b) for b in pool.chunks(ops, 40)]
+    tasks += [("exprs", b) for b in pool.chunks(argflow_exprs(), 60)]
+    chk.extra["operator_grid_exprs"] = len(ops)
     corpus = [c["src"] for c in json.load(open(c04.CORPUS, encoding="utf-8"))]
     progs = []
     for src in corpus:
         gn = sorted(set(re.findall(r"\bvar\s+([A-Za-z_$][\w$]*)", src)) | set(re.findall(r"\bfunction\s+([A-Za-z_$][\w$]*)", src)))[:25]
         progs.append((src, gn))
+    gen = generated_programs(chk)
+    chk.extra["generated_programs"] = len(gen)
+    progs = progs + gen
     tasks += [("programs", b) for b in pool.chunks(progs, 12)]
     res = pool.run(typing_task, tasks, timeout=1200)
     inspected = 0
+    stack_checked = 0
+    monitor_ok = True
     pytypes = set()
     for (kind, items), r in zip(tasks, res):
         if isinstance(r, (pool.HANG, pool.CRASH)):
             chk.violation("typing|%r" % r, {"sub": "typing", "kind": kind}, None, repr(r), sub="typing")
             continue
-        findings, n, types = r
+        findings, n, types, stackn = r
+        stack_checked += max(stackn, 0)
+        monitor_ok = monitor_ok and stackn >= 0
         inspected += n
         pytypes.update(types)
         for it in items:
@@ -470,10 +673,11 @@ def main(chk):
             chk.violation("typing|%s|%s" % ("builtin-call" if "expr" in f else "program", ",".join(t)[:80]), dict(f, sub="typing"),
                           "only JavaScript values", t, sub="typing")
     chk.extra["values_inspected"] = inspected
+    chk.extra["operand_stack_values_checked"] = stack_checked if monitor_ok else "monitor unavailable (VM._execute_opcode / VM.stack not found)"
     chk.extra["python_types_seen"] = sorted(pytypes)
     chk.sample({"sub": "typing", "values_inspected": inspected, "python_types_seen": sorted(pytypes)})
     # (c)
-    cases = [(s, []) for s in NONCALLING] + CALLING
+    cases = [(s, []) for s in NONCALLING] + CALLING + rebind_cases()
     res = pool.run(hostcall_task, pool.chunks(cases, 5), timeout=300)
     for rb in res:
         if isinstance(rb, (pool.HANG, pool.CRASH)):
@@ -481,7 +685,7 @@ def main(chk):
             continue
         for src, expect, log, st in rb:
             chk.count()
-            chk.nontrivial("hc" + src)
+            chk.nontrivial("hc" + (src if isinstance(src, str) else "\n".join(src)))
             if log != expect:
                 chk.violation("hostcall|%s" % ("called-without-call" if not expect else "wrong-calls"), {"sub": "hostcall", "src": src}, expect, [log, st], sub="hostcall")
             elif len(expect) == 0 and len(chk.samples) < 14:
@@ -497,9 +701,9 @@ def replay(rec):
         return {"fails": r[case["name"]] != want, "expected": want, "actual": r[case["name"]]}
     if case.get("sub") == "typing":
         if "expr" in case:
-            f, n, t = typing_task(("exprs", [case["expr"]]))
+            f, n, t, _ = typing_task(("exprs", [case["expr"]]))
         else:
-            f, n, t = typing_task(("programs", [(case["program"], [])]))
+            f, n, t, _ = typing_task(("programs", [(case["program"], [])]))
         return {"fails": bool(f), "expected": "only JavaScript values", "actual": f}
     if case.get("sub") == "hostcall":
         exp = rec.get("expected") or []
